@@ -236,10 +236,17 @@ func wcChild(a []string) string {
 			}
 			n = 2
 		}
+		// the closers start together: all wait at a barrier that is opened once every one of them is running
+		barrier := make(chan struct{})
+		var ready sync.WaitGroup
+		ready.Add(n)
+		go func() { ready.Wait(); close(barrier) }()
 		for i := 0; i < n; i++ {
 			wg.Add(1)
 			go func(i int) {
 				defer wg.Done()
+				ready.Done()
+				<-barrier
 				t0 := time.Now()
 				var err error
 				if i%2 == 0 {
@@ -554,6 +561,11 @@ func init() {
 	}
 	suites["wsconn"] = func(o *Out, r *Rng, n int, tier string) {
 		peers := []string{"echo", "silent", "first1000", "first1001", "sever", "writefail", "silentslow", "severtmo"}
+		// seed-independent: many closers released together on a fresh connection, with and without a listener, again and again
+		// (the admission gate of Close is a window of a few instructions: only numbers find it without a hook inside it)
+		for k := 0; k < 120 && !raceEnabled; k++ { // (the race-detector build keeps to the seeded scenarios: it is there to report races, not to win them)
+			o.emit("C15", "WC", "closers", itoa(int64(4+k%5)), renderBool(k%3 == 0), "echo", itoa(int64(100000+k)))
+		}
 		for i := 0; i < n; i++ {
 			switch r.Intn(9) {
 			case 5:
